@@ -606,3 +606,28 @@ fn test_alternating_sequence() {
 
     assert_eq!(Aa_V, vec![1., 1., 1., -1., 1., -1.]);
 }
+
+// verification-only hooks (see /verif); compiled only under the guard cfg
+#[cfg(oxfordcontrol_clarabel_rs_verif)]
+pub(crate) mod verif_hooks_ac {
+    use crate::algebra::FloatT;
+    use std::ops::Range;
+    pub(crate) fn get_row_index(k: usize, rowval: &[usize], row_range: Range<usize>, row_range_col: Range<usize>) -> Option<usize> {
+        super::get_row_index(k, rowval, row_range, row_range_col)
+    }
+    pub(crate) fn parent_block_indices(parent_clique: &[usize], i: usize, j: usize) -> usize {
+        super::parent_block_indices(parent_clique, i, j)
+    }
+    pub(crate) fn get_block_indices(snode: &[usize], separator: &[usize], nv: usize) -> Vec<(usize, usize, bool)> {
+        super::get_block_indices(snode, separator, nv)
+    }
+    pub(crate) fn get_rows_subset(rows: &[usize], row_range: Range<usize>) -> Option<Range<usize>> {
+        super::get_rows_subset(rows, row_range)
+    }
+    pub(crate) fn alternating_sequence<T: FloatT>(total_length: usize, n_start: usize) -> Vec<T> {
+        super::alternating_sequence(total_length, n_start)
+    }
+    pub(crate) fn extra_columns(total_length: usize, n_start: usize, start_val: usize) -> Vec<usize> {
+        super::extra_columns(total_length, n_start, start_val)
+    }
+}
